@@ -18,13 +18,13 @@ CHECKS = {
  "C04": ("exploration", "reference-model monitor over generated call histories",
          "Every call of thousands of seeded multi-handle histories is followed by a fresh reader whose stored contents are compared with an independent sequential content/queue model; holds on the histories explored, not a proof.",
          "Healthy storage, no crashes; stored fields compared modulo null/[]/absent and singleton-array trivia; model of handle inheritance per DESIGN C04.", "DESIGN.md#c04"),
- "C05": ("exploration", "exact serializability checker over recorded concurrent histories with injected delays at hook pause points",
+ "C05": ("exploration", "exact serializability checker over recorded concurrent histories (mixed and churn workload profiles, compaction from a thread or between a handle's own calls) with injected delays at hook pause points",
          "2-4 writer threads (+ compactor) run concurrently with seeded delays inside the writer critical sections; calls are stamped at the client boundary and an exact search decides whether some interleaving consistent with real-time order reproduces all results and the final contents under the sequential model.",
          "Sequential spec = C04 model; search budget exceeded => inconclusive; perturbation (not enumeration) of schedules.", "DESIGN.md#c05"),
- "C06": ("exploration", "directed pause-point schedules + stress, snapshot-membership history checker",
+ "C06": ("exploration", "directed pause-point schedules + a failing-commit family (storage wrapper holds and fails the manifest store) + stress, snapshot-membership history checker",
          "Every (reader pause point x writer operation) and (writer/compaction pause point x reader) schedule is driven deterministically through the hook; readers must succeed, see exactly one admissible committed state, and keep returning it after later changes; plus free-running stress with admissible-window checking.",
          "Pause points are the hook's; lock-blocked schedules are released after 300 ms and reported as such.", "DESIGN.md#c06"),
- "C07": ("exploration", "independent boolean query evaluator (reference model) over generated schemas/corpora/query trees",
+ "C07": ("exploration", "independent boolean query evaluator (reference model) over generated schemas/corpora/query trees; the id set must be the same under bm25, wand and bmw execution",
          "An independent three-valued evaluator over analyzed field contents (engine's public analyzers only) decides which live documents must / may match each generated query tree; compared with the id set returned by exhaustive search.",
          "Public analyzers trusted for tokenisation; cases the README leaves undefined are excluded and counted.", "DESIGN.md#c07"),
  "C08": ("exploration", "independent filter evaluator over the original JSON documents",
@@ -54,7 +54,7 @@ CHECKS = {
  "C16": ("exploration", "panic/abort/hang monitor over generated + mutated requests in sandboxed workers (release-like and debug-assertions builds)",
          "Structure-aware hostile requests and char-level mutations are executed by IndexReader::search in worker processes with an address-space limit and a watchdog; panics, process deaths and reproduced hangs are violations.",
          "Requests that do not deserialise are outside the property; hang = reproduced alone with a 10x bound.", "DESIGN.md#c16"),
- "C17": ("fault_enumeration", "byte-flip / truncation enumeration of every index file + open/search/writer probe in sandboxed workers",
+ "C17": ("fault_enumeration", "byte-flip / truncation enumeration of every index file + open (both create_if_missing settings) / per-request search battery / writer probe in sandboxed workers",
          "Every byte x 4 xor masks and every truncation length of every file of small indexes (thorough; sampled in quick) is applied in place; the probe must error or reproduce baseline answers exactly; the WAL must recover a prefix.",
          "Acceptable outcomes: error at any stage or identical answers (WAL: prefix of the queue).", "DESIGN.md#c17"),
  "C18": ("exploration", "collapse reference model over the uncollapsed ranking",
